@@ -240,6 +240,23 @@ func (vc *VC) havocCall(call *ast.CallExpr, callee *types.Func, st *State, why s
 	}
 	vc.havocCalls[name] = true
 	info := vc.cur().info
+	// p.M() with M declared on the value type dereferences p
+	if se, ok := ast.Unparen(call.Fun).(*ast.SelectorExpr); ok && vc.safety {
+		if sel, ok := info.Selections[se]; ok && sel.Kind() == types.MethodVal {
+			if s2, ok := sel.Obj().Type().(*types.Signature); ok && s2.Recv() != nil {
+				_, recvIsPtr := s2.Recv().Type().(*types.Pointer)
+				_, isIface := vc.underlying(s2.Recv().Type()).(*types.Interface)
+				if xt := vc.typeOf(se.X); xt != nil && !recvIsPtr && !isIface {
+					if _, argIsPtr := vc.underlying(xt).(*types.Pointer); argIsPtr {
+						save := vc.safety
+						p := vc.term(vc.evalExprNoSafety(se.X, st), se.X.Pos())
+						vc.safety = save
+						vc.deref(p, st, se.X.Pos())
+					}
+				}
+			}
+		}
+	}
 	for _, a := range call.Args {
 		at := vc.typeOf(a)
 		if at == nil {
@@ -765,7 +782,13 @@ func (vc *VC) ifaceCall(callee *types.Func, key string, recv Term, args []Value,
 	sig := callee.Type().(*types.Signature)
 	fc := vc.w.cs.Funcs[key]
 	if vc.safety {
-		vc.oblige("safe:nil-deref", "", call.Pos(), st.pc, tNot(vc.isNil(recv, call.Pos())), "interface receiver of "+callee.Name()+" is non-nil")
+		if vc.fc != nil && vc.fc.WellFormed {
+			// sweep option `wellformed`: no nil children in the tree being walked
+			vc.assume(st.pc, tNot(vc.isNil(recv, call.Pos())))
+			vc.axiomsUsed = append(vc.axiomsUsed, "assumed: well-formed tree (interface-typed children are non-nil)")
+		} else {
+			vc.oblige("safe:nil-deref", "", call.Pos(), st.pc, tNot(vc.isNil(recv, call.Pos())), "interface receiver of "+callee.Name()+" is non-nil")
+		}
 	}
 	if fc == nil || !fc.Pure {
 		if fc != nil {
